@@ -59,6 +59,13 @@ def b_len(self, a, kw):
       card = z3.Function('card!' + s.name, s.z3(), z3.IntSort())
       self.assume(card(v.t) >= 0)
       self.assume((card(v.t) == 0) == (v.t == s.empty()))
+      # more than one element <=> two distinct members
+      w1 = z3.Function('card_w1!' + s.name, s.z3(), s.elem.z3())
+      w2 = z3.Function('card_w2!' + s.name, s.z3(), s.elem.z3())
+      x, y = z3.Const(fresh_name('x'), s.elem.z3()), z3.Const(fresh_name('y'), s.elem.z3())
+      self.assume(z3.Implies(card(v.t) > 1, z3.And(z3.Select(v.t, w1(v.t)), z3.Select(v.t, w2(v.t)), w1(v.t) != w2(v.t))))
+      self.assume(qforall([x, y], z3.Implies(z3.And(z3.Select(v.t, x), z3.Select(v.t, y), x != y), card(v.t) > 1),
+                          patterns=[z3.MultiPattern(z3.Select(v.t, x), z3.Select(v.t, y))]))
       return SV(INT, card(v.t))
   raise OutsideSubset(f'len of {v!r}')
 
@@ -544,6 +551,8 @@ GLOBAL_BINDINGS['type'].tagname = 'type'
 def call_method(self: Exec, recv, name, args, kwargs):
   box = recv if isinstance(recv, Box) else None
   v = self.deref(recv)
+  if isinstance(v, (Lit, FString)) and name in ('join', 'format'):
+    return FString([v])   # message text: content not modelled (the argument is not evaluated)
   if isinstance(v, SV) and isinstance(v.sort, Union):
     v = self.unwrap(v)
   if isinstance(v, SV):
@@ -564,6 +573,8 @@ def call_method(self: Exec, recv, name, args, kwargs):
 
 def set_method(self, box, v, name, args):
   s = v.sort
+  if name in ('union', 'intersection', 'difference', 'issubset', 'issuperset', 'isdisjoint'):
+    pass
   if name in ('union', 'intersection', 'difference', 'issubset', 'issuperset', 'isdisjoint'):
     o = self.deref(args[0])
     if isinstance(o, IterView) and getattr(o, 'source_map', None) is not None:
